@@ -138,6 +138,8 @@ struct SubInst {
     /// pending stream control messages (event idx, stream call)
     pending_ctrl: Vec<(usize, CallId, Vec<String>, Vec<(String, i32)>, u64, bool)>,
     first_deliveries: Vec<(u64, usize, usize, u128)>, // mkey, lo_idx, hi_idx, id
+    /// a consumer call of this subscription was abandoned since the last quiescent point
+    consumer_abort_since_qp: bool,
     delivered_once: HashSet<u64>,
     view: Option<SubView>,
     req_push: Option<PushReq>,
@@ -1174,6 +1176,7 @@ impl<'a> Model<'a> {
                             mutators: HashSet::new(),
                             pending_ctrl: Vec::new(),
                             first_deliveries: Vec::new(),
+                            consumer_abort_since_qp: false,
                             delivered_once: HashSet::new(),
                             view: Some(view.clone()),
                             req_push: push.clone(),
@@ -1694,6 +1697,7 @@ impl<'a> Model<'a> {
                     let s = &mut self.subs[si];
                     s.tainted_until = s.tainted_until.max(now + d * SEC + SLACK + 1_000_000);
                     s.ever_tainted = true;
+                    s.consumer_abort_since_qp = true;
                     // an acknowledgement overlapping the abandoned call may have named (by its
                     // predictable id) the lease that call was given
                     let racing_ack = s.mutations.iter().any(|m| m.1 > c.invoke_idx && !m.2.is_empty());
@@ -1882,6 +1886,34 @@ impl<'a> Model<'a> {
                     if unary { &["C06", "C15"] } else { &["C06"] },
                     format!("at a quiescent point {} has {} message(s) in its backlog while {} consumer call(s) {:?} are waiting", st.name, st.backlog, waiting.len(), waiting),
                 );
+            }
+            // the same judged by the model instead of the server's own counters: a message that is
+            // certainly available (published, nacked or expired, and handed to nobody the harness
+            // knows of) while a consumer waits - e.g. because a consumer nobody holds any more took it
+            // (not at the first quiescent point after a consumer was abandoned: its request may
+            // still have been in the mailbox and have taken what became available since)
+            let abandoned_recently = self.subs[si].consumer_abort_since_qp;
+            self.subs[si].consumer_abort_since_qp = false;
+            if abandoned_recently {
+                // whatever became available between the abandonment and this point may sit in a
+                // lease that the abandoned request (still in the mailbox then) was given
+                for (_, st) in self.subs[si].msgs.iter_mut() {
+                    if matches!(st, Ms::Queued { .. }) {
+                        *st = Ms::MaybeLeased;
+                    }
+                }
+            }
+            if waiting.len() > self.stalled_now && st.backlog == 0 && !abandoned_recently && self.subs[si].del_i.is_none() && self.subs[si].mutators.is_empty() && self.inflight_pubs.is_empty() {
+                let avail = self.definitely_available(si);
+                if let Some((k, why)) = avail.first() {
+                    let id = self.mkey_to_id.get(k).cloned().unwrap_or_default();
+                    let unary = waiting.iter().any(|c| matches!(self.tr.calls[*c].req, Req::Pull { .. }));
+                    self.v(
+                        "available_but_waiting_consumer_not_served",
+                        if unary { &["C06", "C15"] } else { &["C06"] },
+                        format!("at a quiescent point message {} is available on {} ({:?}) and was handed to no consumer, while {} consumer call(s) {:?} are waiting (server counters: backlog {}, outstanding {})", id, st.name, why, waiting.len(), waiting, st.backlog, st.outstanding),
+                    );
+                }
             }
             // stats against the model
             // (phantom leases of abandoned consumers are covered by the ranges of `counts`)
